@@ -247,6 +247,8 @@ func resShape(m *msggen.Message) string {
 		return "x-gzip"
 	case "deflate-zlib":
 		return "zlib-deflate"
+	case "deflate-zlib-small":
+		return "zlib-deflate-small-window"
 	}
 	if m.Encoding == "GZIP" {
 		return enc
@@ -359,6 +361,64 @@ func invalidEntries(mq *msggen.Message, reqErr error, es []*har.Entry, exchanges
 	return v, true
 }
 
+// tokens is a comma-separated header value as a sorted token list.
+func tokens(v string) string {
+	var out []string
+	for _, t := range strings.Split(v, ",") {
+		if t = strings.TrimSpace(t); t != "" {
+			out = append(out, textproto.CanonicalMIMEHeaderKey(t))
+		}
+	}
+	sort.Strings(out)
+	return strings.Join(out, ",")
+}
+
+// checkTrailerHeader: net/http moves the 'Trailer' announcement out of the
+// header map (into the Trailer map), as it does with Host, Content-Length and
+// Transfer-Encoding; the message carries it (and is forwarded with it), so the
+// header list has to name it. The value is compared as a set of field names.
+func checkTrailerHeader(side string, m *msggen.Message, hs []har.Header) (v kit.Verdict) {
+	want := ""
+	for _, h := range m.Headers {
+		if textproto.CanonicalMIMEHeaderKey(h.Name) == "Trailer" {
+			want = tokens(h.Value)
+		}
+	}
+	var got []string
+	for _, h := range hs {
+		if h.Name == "Trailer" {
+			got = append(got, tokens(h.Value))
+		}
+	}
+	switch {
+	case want == "" && len(got) > 0:
+		v.Addf("C16/"+side+"/trailer-not-announced/trailer-header-invented", "the header list has Trailer: %v, the message announces no trailers", got)
+	case want != "" && len(got) == 0:
+		v.Addf("C16/"+side+"/trailer-announced/trailer-header-missing", "the message carries 'Trailer: %s' (net/http keeps it in the Trailer map and forwards it), the header list has no Trailer", want)
+	case want != "" && (len(got) != 1 || got[0] != want):
+		v.Addf("C16/"+side+"/trailer-announced/trailer-header-differs", "header list Trailer %v, the message announces %q", got, want)
+	}
+	return v
+}
+
+// checkStatusText: the status of a message is its code and its reason phrase;
+// HAR has a field for each. A response built by the proxy has the phrase
+// proxyutil.NewResponse gives it: net/http's text for the code.
+func checkStatusText(c Case, m *msggen.Message, r *har.Response) (v kit.Verdict) {
+	want := m.Reason
+	if c.Built {
+		want = http.StatusText(m.Status)
+	}
+	if r.StatusText != want {
+		shape := "canonical-reason-phrase"
+		if want != http.StatusText(m.Status) {
+			shape = "non-canonical-reason-phrase"
+		}
+		v.Addf("C16/response/"+shape+"/status-text-differs", "statusText %q, the status line reads '%d %s'", r.StatusText, m.Status, want)
+	}
+	return v
+}
+
 // checkEntry compares one exported entry with the generated exchange.
 func checkEntry(c Case, mq, ms *msggen.Message, e *har.Entry, resErr error) (v kit.Verdict) {
 	v = append(v, checkRequest(c, mq, e.Request)...)
@@ -413,6 +473,7 @@ func checkRequest(c Case, m *msggen.Message, r *har.Request) (v kit.Verdict) {
 	}
 	// net/http moves the Trailer announcement into Request.Trailer; the
 	// statement names Host, Content-Length and Transfer-Encoding only
+	v = append(v, checkTrailerHeader("request", m, r.Headers)...)
 	if got, want := harHeaders(r.Headers, "Trailer"), pairs(m.Headers, true, "Trailer"); !same(got, want) {
 		if len(c.Stale) > 0 {
 			v.Addf("C16/request/headers-after-field-only-modifier/stale-literal-listed", "a modifier changed the request through its fields (%v); header list %v, the origin receives %v", c.Stale, got, want)
@@ -426,7 +487,33 @@ func checkRequest(c Case, m *msggen.Message, r *har.Request) (v kit.Verdict) {
 	}
 	sort.Strings(gotQ)
 	if want := pairs(m.Query, false); !same(gotQ, want) {
-		fail("query-string", "queryString %v, the request target has %v", gotQ, want)
+		// is everything that is missing a pair net/url rejects?
+		have := map[string]int{}
+		for _, g := range gotQ {
+			have[g]++
+		}
+		onlyRejected := len(m.BadPairs) > 0
+		rejected := map[string]bool{}
+		for _, b := range pairs(m.BadPairs, false) {
+			rejected[b] = true
+		}
+		for _, w := range want {
+			if have[w] > 0 {
+				have[w]--
+			} else if !rejected[w] {
+				onlyRejected = false
+			}
+		}
+		for _, n := range have {
+			if n > 0 {
+				onlyRejected = false
+			}
+		}
+		if onlyRejected {
+			v.Addf("C16/request/query-pair-rejected-by-net-url/missing-from-query-string", "queryString %v: the pairs %v of the request target (which url and the origin have) are silently absent", gotQ, pairs(m.BadPairs, false))
+		} else {
+			fail("query-string", "queryString %v, the request target has %v", gotQ, want)
+		}
 	}
 	var gotC, wantC []string
 	for _, ck := range r.Cookies {
@@ -468,6 +555,12 @@ func checkRequest(c Case, m *msggen.Message, r *har.Request) (v kit.Verdict) {
 		v.Addf("C16/capture/option-history/post-data-not-captured-despite-last-option", "after the SetOption history %+v post data logging is on for %q, yet postData has neither text nor params (%d body bytes)", c.Hist, m.ContentType, len(m.Entity))
 		return v
 	}
+	if m.FormKind != "" && m.NonUTF8Param && len(pd.Params) == 0 && pd.Text == string(m.Entity) {
+		// a form with values that are not valid UTF-8 rendered as text (which
+		// has a base64 escape in JSON) instead of parameters (which have none):
+		// the post data equals the body, exactly
+		return v
+	}
 	switch m.FormKind {
 	case "urlencoded":
 		// order across names is not defined (a map), within a name it is
@@ -494,7 +587,21 @@ func checkRequest(c Case, m *msggen.Message, r *har.Request) (v kit.Verdict) {
 			want = append(want, fmt.Sprintf("%q %q %q %s", p.Name, p.File, p.CT, kit.Hash([]byte(p.Value))))
 		}
 		if !same(got, want) {
-			v.Addf("C16/postdata/"+shape+"/params-differ", "multipart parameters (name, file, type, value hash) %v, the body holds %v", got, want)
+			// only file names with a directory part cut down to their base name?
+			var base []string
+			dirs := false
+			for _, p := range m.Params {
+				f := p.File
+				if i := strings.LastIndex(f, "/"); i >= 0 {
+					f, dirs = f[i+1:], true
+				}
+				base = append(base, fmt.Sprintf("%q %q %q %s", p.Name, f, p.CT, kit.Hash([]byte(p.Value))))
+			}
+			if dirs && same(got, base) {
+				v.Addf("C16/postdata/multipart-file-name-with-directory/file-name-cut-to-base-name", "multipart parameters %v: the file names sent are those of %v", got, want)
+			} else {
+				v.Addf("C16/postdata/"+shape+"/params-differ", "multipart parameters (name, file, type, value hash) %v, the body holds %v", got, want)
+			}
 		}
 	default:
 		if pd.Text != string(m.Entity) {
@@ -534,6 +641,8 @@ func checkResponse(c Case, m *msggen.Message, r *har.Response) (v kit.Verdict) {
 			fail("http-version", "httpVersion %q, sent %q", r.HTTPVersion, m.Proto)
 		}
 	}
+	v = append(v, checkTrailerHeader("response", m, r.Headers)...)
+	v = append(v, checkStatusText(c, m, r)...)
 	if got, want := harHeaders(r.Headers, "Trailer"), pairs(m.Headers, true, "Trailer"); !same(got, want) {
 		if len(c.Stale) > 0 {
 			v.Addf("C16/response/headers-after-field-only-modifier/stale-literal-listed", "a modifier changed the response through its fields (%v); header list %v, the client receives %v", c.Stale, got, want)
@@ -583,6 +692,8 @@ func checkResponse(c Case, m *msggen.Message, r *har.Response) (v kit.Verdict) {
 	exp := expectedContent(m)
 	if len(c.Hist) > 0 && len(exp) > 0 && len(ct.Text) == 0 && ct.Size == 0 {
 		v.Addf("C16/capture/option-history/body-not-captured-despite-last-option", "after the SetOption history %+v body logging is on for %q, yet content.text is empty (%d bytes expected)", c.Hist, m.ContentType, len(exp))
+	} else if len(exp) > 0 && len(ct.Text) == 0 && ct.Size == 0 && c.Body.Mode != "all" {
+		v.Addf("C16/capture/content-type-option/body-not-captured-despite-option", "body logging is on for %q under the option %+v, yet content.text is empty (%d bytes expected)", m.ContentType, c.Body, len(exp))
 	} else if !bytes.Equal(ct.Text, exp) {
 		class := "text-differs"
 		if m.Decodable && bytes.Equal(ct.Text, m.Entity) {
@@ -766,7 +877,7 @@ func nonUTF8(c Case) bool {
 
 func compressedCoding(e string) bool {
 	switch e {
-	case "gzip", "deflate", "GZIP", "x-gzip", "deflate-zlib":
+	case "gzip", "deflate", "GZIP", "x-gzip", "deflate-zlib", "deflate-zlib-small":
 		return true
 	}
 	return false
@@ -1027,6 +1138,41 @@ func matrix(yield func(Case) bool) {
 				if !yield(Case{Req: rq, Res: txt, Post: msggen.HarOpt{Mode: mode}, Body: allOpt}) {
 					return
 				}
+			}
+		}
+	}
+	// round 6: announced trailers, reason phrases, query pairs net/url rejects,
+	// file names with a directory part, zlib streams with a small window
+	{
+		trq, trs := chReq, chRes
+		trq.Trailers = []msggen.HV{{Name: "X-Checksum", Value: "deadbeef"}, {Name: "Server-Timing", Value: "db;dur=53"}}
+		trs.Trailers = []msggen.HV{{Name: "X-Checksum", Value: "deadbeef"}}
+		cs := []Case{{Req: trq, Res: trs}}
+		for _, r := range []struct {
+			code   int
+			reason string
+		}{{404, "No Such Customer"}, {200, "Document follows"}, {299, "Partially Applied"}, {520, "Web Server Returned an Unknown Error"}, {200, ""}} {
+			rs := txt
+			rs.Status, rs.Reason, rs.CustomReason = r.code, r.reason, true
+			cs = append(cs, Case{Req: jsn, Res: rs})
+		}
+		for _, raw := range []msggen.NV{{Name: "a", Value: msggen.Val{Lit: "1;b=2"}, Raw: "a=1;b=2", Bad: true}, {Name: "discount", Value: msggen.Val{Lit: "100%"}, Raw: "discount=100%", Bad: true}, {Name: "next", Value: msggen.Val{Lit: "%zz"}, Raw: "next=%zz", Bad: true}} {
+			rq := jsn
+			rq.Query = []msggen.NV{{Name: "page", Value: msggen.Val{Lit: "2"}}, raw}
+			cs = append(cs, Case{Req: rq, Res: txt})
+		}
+		rq := msggen.Spec{Method: "POST", Host: "example.com", Path: "/up", Framing: "cl", ContentType: "multipart/form-data", Body: msggen.Body{Kind: "multipart", Boundary: "b0undary-0123456789-abcdefghij",
+			Params: []msggen.Param{{Name: "f", Value: msggen.Val{N: 12, Seed: 1}, File: "photos/2020/index.html", CT: "text/html"}, {Name: "g", Value: msggen.Val{N: 12, Seed: 2}, File: "photos/2021/index.html", CT: "text/html"}}}}
+		cs = append(cs, Case{Req: rq, Res: txt})
+		for _, size := range []int{1, 300, 600, 3000, 9000, 20000} {
+			rs := txt
+			rs.Encoding, rs.Body.Size = "deflate-zlib-small", size
+			cs = append(cs, Case{Req: jsn, Res: rs})
+		}
+		for _, c := range cs {
+			c.Post, c.Body = allOpt, allOpt
+			if !yield(c) {
+				return
 			}
 		}
 	}
